@@ -53,6 +53,7 @@ type VarUse struct {
 	Loc        *ref.Type
 	Unit       string
 	LocDefault bool // the position declares a default value
+	Nested     bool // the use sits inside a list or input object literal
 }
 
 type TypedDoc struct {
@@ -140,7 +141,7 @@ func (g *docGen) variable(ty *ref.Type, locHasDefault bool, strict bool) *ref.Va
 func (g *docGen) valueOf(ty *ref.Type, depth int, locHasDefault bool) *ref.Value {
 	if g.chance("usevar", 4) {
 		val := g.variable(ty, locHasDefault, false)
-		g.out.Uses = append(g.out.Uses, VarUse{val, ty, g.unit, locHasDefault})
+		g.out.Uses = append(g.out.Uses, VarUse{val, ty, g.unit, locHasDefault, false})
 		return val
 	}
 	v := g.literal(ty, depth)
@@ -163,7 +164,7 @@ func (g *docGen) literal(ty *ref.Type, depth int) *ref.Value {
 		for i, n := 0, rapid.IntRange(0, 2).Draw(g.t, "nlist"); i < n; i++ {
 			if depth > 0 && g.chance("nestedvar", 5) {
 				val := g.variable(ty.Elem, false, false)
-				g.out.Uses = append(g.out.Uses, VarUse{val, ty.Elem, g.unit, false})
+				g.out.Uses = append(g.out.Uses, VarUse{val, ty.Elem, g.unit, false, true})
 				v.Items = append(v.Items, val)
 				continue
 			}
@@ -191,7 +192,7 @@ func (g *docGen) literal(ty *ref.Type, depth int) *ref.Value {
 			nn.NonNull = true
 			if g.chance("oneofvar", 4) {
 				val := g.variable(&nn, false, true)
-				g.out.Uses = append(g.out.Uses, VarUse{val, &nn, g.unit, false})
+				g.out.Uses = append(g.out.Uses, VarUse{val, &nn, g.unit, false, true})
 				v.Fields = append(v.Fields, &ref.ObjField{Name: f.Name, Value: val})
 				return v
 			}
@@ -207,7 +208,7 @@ func (g *docGen) literal(ty *ref.Type, depth int) *ref.Value {
 			}
 			if depth > 0 && g.chance("fieldvar", 5) {
 				val := g.variable(f.Type, f.Default != nil, false)
-				g.out.Uses = append(g.out.Uses, VarUse{val, f.Type, g.unit, f.Default != nil})
+				g.out.Uses = append(g.out.Uses, VarUse{val, f.Type, g.unit, f.Default != nil, true})
 				v.Fields = append(v.Fields, &ref.ObjField{Name: f.Name, Value: val})
 				continue
 			}
